@@ -27,7 +27,7 @@ THEOREMS = [
     "C08_good_init", "C08_simulate_good", "C08_root_visits_k", "C08_root_visits_fresh",
     "C08_root_visits_reused", "C08_analyze_good", "C08_expanded_bookkeeping", "C08_leaf_bookkeeping",
     "C08_terminal_outcome", "C08_children_one_to_one", "C08_child_positions",
-    "C08_child_priors_renormalised", "C08_expansion_records_evaluator", "C08_position_untouched",
+    "C08_child_priors_renormalised", "C08_renorm_is_division", "C08_expansion_records_evaluator", "C08_position_untouched",
     "C08_simulate_bounded", "C08_abs_value_le_sims", "C08_live_has_path",
 ]
 MODEL_TARGETS = ["model/Mcts.vo", "model/Harness.vo", "model/Lit.vo"]
